@@ -178,8 +178,9 @@ func (v *Vue) loadCachedWithFrontMatter(filename string) (map[string]any, []*htm
 
 	v.templateMu.RLock()
 	cached, ok := v.templateCache[filename]
-	if ok && !statFailed && (currentModTime.IsZero() || cached.modTime.Equal(currentModTime)) {
-		// Cache hit and file hasn't changed (or we can't check mtime)
+	if ok && !statFailed && cached.modTime.Equal(currentModTime) {
+		// Cache hit and file hasn't changed (a filesystem without modification times reports the zero time
+		// every time, which is equal to itself; a file whose time BECAME zero was replaced)
 		v.templateMu.RUnlock()
 		return cached.frontMatter, cached.dom, nil
 	}
